@@ -166,11 +166,13 @@ func (d *WordDecoder) DecodeHeader(header string) (string, error) {
 // encodeHeaderText returns str in the form stored in the Subject and File header fields.
 //
 // Text containing non-ASCII characters is Q-encoded with DefaultCharset (as defined by RFC 2047). ASCII-only text
-// is stored verbatim, unless it contains "=?": the reader (WordDecoder.DecodeHeader) would take that for an
-// encoded-word and return something else than what was set, so such text is Q-encoded as well.
+// is stored verbatim, unless it would not be read back as it was set: text containing "=?" (WordDecoder.DecodeHeader
+// would take that for an encoded-word) and text beginning or ending with a blank (header values are trimmed when
+// written and parsed) is Q-encoded as well.
 func encodeHeaderText(str string) string {
 	encoded, _ := toCharset(DefaultCharset, str)
-	if q := mime.QEncoding.Encode(DefaultCharset, encoded); q != encoded || !strings.Contains(encoded, "=?") {
+	verbatimOK := !strings.Contains(encoded, "=?") && strings.Trim(encoded, " \t") == encoded
+	if q := mime.QEncoding.Encode(DefaultCharset, encoded); q != encoded || verbatimOK {
 		return q
 	}
 
